@@ -52,6 +52,7 @@ def core_scenario(w, extra_ops=()):
     L = ['scenario core', f"flavour {w['flavour']}", f"policy {w['policy']}",
          f"limit {w['limit'] if w['limit'] is not None else 'none'}", f"ttl {int(w['ttl']) if w['ttl'] is not None else 'none'}",
          f"max_memory {w['max_memory'] if w['max_memory'] is not None else 'none'}", f"fw {w['frequency_weight'] if w['frequency_weight'] is not None else 'none'}"]
+    if w.get('flavour') == 'A' and w.get('phase_ms', 0) >= 20: L.append(f"phase_ms {min(int(w['phase_ms']), 900)}")      # sub-second phase of the wall clock at which the scenario runs
     if w.get('handle_delay'): L.append(f"handle_delay {int(w['handle_delay'])}")          # ns (sync engines) / s (async): time between building the handle and using it
     for e in w['entries']:
         age = max(0, int(w['now0'] - e['birth']))
